@@ -51,7 +51,7 @@ def gen_fixes():
     kf=d.get('findings',[])
     out.append("")
     out.append("Open known findings (reported as KNOWN-FINDING, exit 0): "+("none." if not kf else ""))
-    for f in kf: out.append("- "+json.dumps(f))
+    for f in kf: out.append(f"- **{f['property']}**, assertion `{f['assert']}`: {f['what']}")
     return "\n".join(out)
 def gen_seedsum():
     ms=[json.load(open(p)) for p in sorted(glob.glob(f'{V}/seeded/*/meta.json'))]
